@@ -10,7 +10,7 @@ import sys
 import threading
 from typing import Any, Callable, Dict, List, Optional, Sequence, Tuple, Union
 from urllib.error import HTTPError
-from urllib.parse import parse_qs, quote_plus, urlparse
+from urllib.parse import parse_qs, quote, urlparse
 from urllib.request import (
     BaseHandler, build_opener, HTTPHandler, HTTPRedirectHandler, HTTPSHandler,
     Request,
@@ -657,7 +657,9 @@ def _escape_grouping_key(k, v):
         # Added in Pushgateway 0.9.0.
         return k + "@base64", base64.urlsafe_b64encode(v.encode("utf-8")).decode("utf-8")
     else:
-        return k, quote_plus(v)
+        # The Pushgateway reads the request path with path (not form) un-escaping,
+        # where '+' is a literal plus: a space has to travel as %20, not as '+'.
+        return k, quote(v, safe='')
 
 
 def instance_ip_grouping_key() -> Dict[str, Any]:
